@@ -14,7 +14,9 @@ import (
 // simulator before any task goroutine starts.
 var Hook func(site int)
 
-// Yield marks a statement boundary of the code under test.
+// Yield marks a statement boundary of the code under test. It is small enough
+// to be inlined into its (possibly race-instrumented) callers, so it must not
+// touch shared mutable state of its own.
 func Yield(site int) {
 	if h := Hook; h != nil {
 		h(site)
